@@ -407,8 +407,27 @@ def width_selection(ck, fb):
         calls = [estr(h.resolve(x["a"])) for b, i, x in h.nodes(("call",)) if x.get("pn", "") == NS + "suitable_int_encoding"]
         if calls:
             n_ok += 1
-            need_names(h, ["max_valence", "min_valence"], None, "C06.width")
-            ok = all(c == "max_valence" for c in calls)
+            # the running maximum / minimum are found by role: locals assigned `x` exactly under `x > local` resp. `x < local`
+            from .canon import Canon
+            hcn = Canon(h)
+            role = {}
+            for vid, ms in hcn.mods.items():
+                for kind_, bb, ii, m_ in ms:
+                    a_ = as_assign(m_)
+                    if not a_:
+                        continue
+                    lhs, rhs = hcn.s(a_[0]), hcn.s(a_[1])
+                    fs_ = {(s_, p_) for s_, p_, c_ in hcn.facts(bb)}
+                    if ("(%s > %s)" % (rhs, lhs), True) in fs_:
+                        role[lhs] = "max"
+                    if ("(%s < %s)" % (rhs, lhs), True) in fs_:
+                        role[lhs] = "min"
+            vmax = [k_ for k_, r_ in role.items() if r_ == "max"]
+            vmin = [k_ for k_, r_ in role.items() if r_ == "min"]
+            if len(vmax) != 1 or len(vmin) != 1:
+                raise AnalysisBroken("%s: start_topo_chunk: running maximum/minimum of the valences not recognised (%s) - re-audit rule C06.width" % (h.where, role))
+            ccalls = [hcn.s(x["a"][0]) for b, i, x in h.nodes(("call",)) if x.get("pn", "") == NS + "suitable_int_encoding" and x.get("a")]
+            ok = all(c == vmax[0] for c in ccalls)
             (ck.ok if ok else lambda r_, w_, t: ck.violate(r_, w_, t, "C06.width:valence"))("C06.width", h.where, "start_topo_chunk encodes variable valences for the maximum valence (%s)" % calls)
             # fixed valence only if it fits the one-byte field
             conds = [h.resolve(h.term(b)["cond"]) for b in h.reach() if h.term(b) and h.term(b).get("cond")]
@@ -420,7 +439,7 @@ def width_selection(ck, fb):
                         r2 = unwrap(strip_casts(p2[2]))
                         if isinstance(r2, dict) and ((r2.get("k") == "call" and r2.get("pn") == "std::numeric_limits::max" and r2.get("cc") == "std::numeric_limits<unsigned char>") or (r2.get("k") == "lit" and r2.get("v") == 255)):
                             fits = True
-            ok = any("min_valence == max_valence" in estr(c2) for c2 in conds) and fits
+            ok = any(("(%s == %s)" % (vmin[0], vmax[0])) in hcn.s(c2) or ("(%s == %s)" % (vmax[0], vmin[0])) in hcn.s(c2) for c2 in conds) and fits
             (ck.ok if ok else lambda r_, w_, t: ck.violate(r_, w_, t, "C06.width:fixedvalence"))("C06.width", h.where, "a fixed valence is only used when all valences agree and fit the one-byte header field")
     ck.floor("start_topo_chunk_instantiations", n_ok, 1)
 
